@@ -1,7 +1,12 @@
 /-
 Helper lemmas: proof generation over storage refines canonical proof generation (C02, C03).
+* `GenWalk`   — the walk `lcpWalk` on a represented tree follows `CTree.path` / `CRoot.path`;
+* `GenProof`  — `lcpProof`, `membershipProof`, `nonMembershipProof` compute the canonical proofs;
+* `GenLookup` — the directory level: `Dir.lookup` in a state that represents the specification.
 -/
 import AkdModel.Thm.C01c
 import AkdModel.Thm.C05
+import AkdModel.Lemmas.GenProof
+import AkdModel.Lemmas.GenLookup
 namespace Akd
 end Akd
